@@ -35,7 +35,7 @@ Plan gen_c27(sk::Rng& r, Tier) {
         Op op;
         op.k = "req";
         // command (0 STORE, 1 FETCH stream, 2 FETCH to daemon-side path, 3 STOP), token kind, token header position, fragments
-        op.a = {static_cast<std::int64_t>(r.below(4)), r.chance(1, 4) ? 0 : r.range(1, 9), static_cast<std::int64_t>(r.below(3)), r.pick<std::int64_t>({1, 1, 3, 17})};
+        op.a = {static_cast<std::int64_t>(r.below(4)), r.chance(1, 4) ? 0 : r.range(1, 9), static_cast<std::int64_t>(r.below(3)), r.pick<std::int64_t>({1, 1, 3, 17}), static_cast<std::int64_t>(r.below(2))};  // last: FETCH names a manifest the daemon has never seen
         p.ops.push_back(op);
     }
     return p;
@@ -71,6 +71,28 @@ void exec_c27(const Plan& p, Ctx& ctx) {
                                        {"PAYLOAD-LENGTH", std::to_string(seed_payload.size())}}), seed_body, 1);
     if (!setup.ok) { ctx.violate("C27.setup_failed", "authenticated STORE failed: " + setup.field("CODE") + " " + setup.field("MESSAGE")); d.stop(); client.shutdown(); return; }
     const std::string manifest = setup.field("MANIFEST");
+    // a valid manifest for a chunk this daemon has never seen (issued by some other node)
+    std::string foreign_manifest, foreign_key;
+    {
+        auto cfg = base_config(991);
+        en::Node other(make_id(0x27, 0x01), cfg);
+        const auto pl = make_payload(256, 271828);
+        en::ChunkData data(pl.begin(), pl.end());
+        en::ChunkId id{};
+        const auto dg = en::crypto::Sha256::digest(std::span<const std::uint8_t>(data));
+        std::copy(dg.begin(), dg.end(), id.begin());
+        const auto m = other.store_chunk(id, std::move(data), std::chrono::seconds(600));
+        foreign_manifest = en::protocol::encode_manifest(m);
+        foreign_key = en::chunk_id_to_string(id);
+    }
+    auto registered = [&](const std::string& key) {
+        bool found = false;
+        d.with_node([&](en::Node& n) {
+            std::unique_lock<std::recursive_mutex> lock(n.scheduler_mutex_);
+            found = n.manifest_cache_.count(key) != 0 || n.swarm_plans_.count(key) != 0;
+        });
+        return found;
+    };
     int expected_chunks = 1;
     std::uint64_t uniq = 1;
     bool stopped = false;
@@ -91,8 +113,8 @@ void exec_c27(const Plan& p, Ctx& ctx) {
                 fields = {{"COMMAND", "STORE"}, {"TTL", "600"}, {"STORE-POW", std::to_string(ref_solve_store_pow(body, "", 6))}, {"PAYLOAD-LENGTH", std::to_string(body.size())}};
                 break;
             }
-            case 1: fields = {{"COMMAND", "FETCH"}, {"MANIFEST", manifest}, {"STREAM", "client"}}; break;
-            case 2: out_path = out_dir + "/out" + std::to_string(uniq++) + ".bin"; fields = {{"COMMAND", "FETCH"}, {"MANIFEST", manifest}, {"OUT", out_path}}; break;
+            case 1: fields = {{"COMMAND", "FETCH"}, {"MANIFEST", op.at(4) ? foreign_manifest : manifest}, {"STREAM", "client"}}; break;
+            case 2: out_path = out_dir + "/out" + std::to_string(uniq++) + ".bin"; fields = {{"COMMAND", "FETCH"}, {"MANIFEST", op.at(4) ? foreign_manifest : manifest}, {"OUT", out_path}}; break;
             default: fields = {{"COMMAND", "STOP"}}; break;
         }
         std::vector<std::pair<std::string, std::string>> token_fields;
@@ -104,6 +126,7 @@ void exec_c27(const Plan& p, Ctx& ctx) {
         if (!authentic) ctx.boundary(std::string("token_") + token_kind_name[kind]);
         const std::size_t log_before = sk::fs_log().size();
         const std::string count_before = list_count();
+        const bool foreign_known_before = registered(foreign_key);
         auto rep = exchange(ctl_headers(fields), body, frag);
         const std::string what = std::string(cmd == 0 ? "STORE" : cmd == 1 ? "FETCH(stream)" : cmd == 2 ? "FETCH(OUT)" : "STOP") + " with " + token_kind_name[kind] + " token";
         if (authentic) {
@@ -138,6 +161,11 @@ void exec_c27(const Plan& p, Ctx& ctx) {
             if (e.pid == d.pid && (e.kind == "open_w" || e.kind == "write" || e.kind == "mkdir") && e.result == 0 && e.path.rfind(d.storage_dir, 0) != 0)
                 { ctx.violate("C27.file_written_without_token", what + " made the daemon " + e.kind + " " + e.path.substr(sk::scratch_dir().size())); break; }
         }
+        if ((cmd == 1 || cmd == 2) && op.at(4)) {
+            ctx.probe("unauth_fetch_of_unknown_manifest");
+            if (!foreign_known_before && registered(foreign_key))
+                ctx.violate("C27.manifest_registered_without_token", what + " registered the manifest it named in the daemon's node (manifest cache / swarm plan)");
+        }
         const std::string count_after = list_count();
         if (count_after != count_before) ctx.violate("C27.stored_without_token", what + " changed the number of stored chunks from " + count_before + " to " + count_after);
         ctx.state(static_cast<std::uint64_t>(cmd * 16 + kind));
@@ -157,7 +185,7 @@ Scenario make_c27() {
     s.technique = "deterministic simulation: the real `eph serve` main (Node + ControlServer + serve loop) runs as a simulated process with a control token; a scripted client on another simulated host sends STORE / FETCH (streamed and to a daemon-side path) / STOP with missing, wrong, prefix, suffix, case-changed, padded, empty and doubled tokens in any header position and fragmentation; replies, the daemon's file operations, LIST and liveness are checked after each";
     s.real_components = {"src/main.cpp serve path (real main())", "ControlServer (parse_request, handle_store, handle_fetch, handle_stop)", "Node", "SessionManager/RelayClient threads of the daemon"};
     s.stub_components = {"OS: threads -> fibers, sockets -> simulated TCP, clock, entropy, file seam", "control clients are scripted raw requests"};
-    s.assumptions = {"'registered' side effects of an unauthenticated FETCH inside the daemon's Node (manifest cache) are not observable through the control plane and are not judged here",
+    s.assumptions = {"'registered' is judged by looking at the daemon Node's manifest cache and swarm plans (reached through the control-server object main() constructs; no change to the repository)",
                      "a request that carries the exact token value anywhere (also under a lower-case header name) counts as authenticated"};
     s.rule = "plan = network knobs + 3..9 requests (command x token kind x header position x fragmentation); non-trivial = a request without the exact token; distinct = plan hash";
     s.gen = gen_c27; s.exec = exec_c27; s.kernel_knobs = w4_knobs;
